@@ -22,8 +22,9 @@ VARIABLES tid, l,
           mrfDig,       \* per cluster digest of the MRF stored by the optimise phase of this round
           subCov,       \* covariance digests handed to the optimiser, in submission order
           costDig,      \* digest of the assignment cost produced by the last relabel
-          lastBeta      \* what the labelling step was given as switching cost (summary)
-tvars == <<tid, l, statDig, mrfDig, subCov, costDig, lastBeta>>
+          lastBeta,     \* what the labelling step was given as switching cost (summary)
+          began         \* the last round announced by a round_begin event
+tvars == <<tid, l, statDig, mrfDig, subCov, costDig, lastBeta, began>>
 allvars == <<vars, tvars>>
 
 Hdr == Traces[tid].hdr
@@ -56,10 +57,10 @@ TraceInit ==
     /\ scored = NoScore /\ costOf = [labels |-> <<>>, scored |-> NoScore]
     /\ workers = {} /\ task = [k \in 0..(Hdr.K - 1) |-> "none"] /\ gathered = 0
     /\ result = NoResult /\ err = "" /\ faults = 0 /\ exit = ""
-    /\ statDig = <<>> /\ mrfDig = <<>> /\ subCov = <<>> /\ costDig = "none" /\ lastBeta = <<>>
+    /\ statDig = <<>> /\ mrfDig = <<>> /\ subCov = <<>> /\ costDig = "none" /\ lastBeta = <<>> /\ began = -1
 
 IsEvent(e) == l <= NEv /\ Ev.ev = e /\ l' = l + 1 /\ UNCHANGED tid
-KeepT == UNCHANGED <<statDig, mrfDig, subCov, costDig, lastBeta>>
+KeepT == UNCHANGED <<statDig, mrfDig, subCov, costDig, lastBeta, began>>
 
 (* C13 at a phase boundary: K clusters, member lists = sorted sets of the points carrying the label,
    and the state handed INTO the phase still projects to what it did before the phase ran *)
@@ -75,6 +76,10 @@ PhaseCommon(out) ==
 BoundaryIdx0 == {b - 1 : b \in BoundaryPairs(Hdr.stackedLens)}        \* 0-based pair index
 TraceFront ==
     /\ IsEvent("front") /\ pc = "call"
+    \* (checked at the first event so that the rejection carries this name: the harness's fault wrapper
+    \*  fired during this call, yet the call came back with a result)
+    /\ Clause("C20", "a_call_in_which_a_task_or_phase_failed_must_raise_not_return",
+              ~(Hdr.faultFired /\ Hdr.outcome = "return"))
     /\ Clause("C12", "hyperparameters_reach_the_loop_unchanged",
               /\ Ev.args.K = Hdr.K /\ Ev.args.W = Hdr.W /\ Ev.args.limit = Hdr.limit /\ Ev.args.m = Hdr.m
               /\ Ev.args.biased = Hdr.biased /\ Ev.args.lamDig = Hdr.lamDig)
@@ -106,11 +111,12 @@ TraceRoundBegin ==
           /\ Clause("C09", "at_most_iteration_limit_rounds", round + 1 < cfg.limit)
           /\ Continue
           /\ Clause("C09", "round_counter", Ev.round = round')
-    /\ KeepT
+    /\ began' = Ev.round
+    /\ UNCHANGED <<statDig, mrfDig, subCov, costDig, lastBeta>>
 
 (* ------------------------------------------------------------------ repopulation *)
 TraceRepop ==
-    /\ IsEvent("phase") /\ Ev.name = "repopulate" /\ pc = "top"
+    /\ IsEvent("phase") /\ Ev.name = "repopulate" /\ pc = "top" /\ began = round
     /\ Clause("C09", "repopulation_only_from_second_round", round > 0 /\ Ev.round = round)
     /\ Clause("C08", "before_is_current_labelling", Ev.before = labels)
     /\ IF RepopAllowed
@@ -127,7 +133,7 @@ TraceRepop ==
 
 (* ------------------------------------------------------------------ statistics *)
 TraceStats ==
-    /\ IsEvent("phase") /\ Ev.name = "statistics"
+    /\ IsEvent("phase") /\ Ev.name = "statistics" /\ began = round
     /\ \/ pc = "stats"
        \/ /\ pc = "top"
           /\ Clause("C09", "repopulation_attempted_when_a_cluster_has_fewer_than_2", round = 0 \/ ~RepopAllowed)
@@ -138,7 +144,7 @@ TraceStats ==
     /\ PhaseCommon(Ev.out)
     /\ statDig' = [k \in 1..cfg.K |-> [cov |-> Ev.out.cov[k], mean |-> Ev.out.mean[k]]]
     /\ subCov' = <<>>
-    /\ UNCHANGED <<mrfDig, costDig, lastBeta>>
+    /\ UNCHANGED <<mrfDig, costDig, lastBeta, began>>
 
 (* ------------------------------------------------------------------ optimisation *)
 TraceSubmit ==
@@ -150,7 +156,7 @@ TraceSubmit ==
               Ev.lamDig = Hdr.lamDig /\ Ev.W = Hdr.W /\ Ev.N = Hdr.N)
     /\ IF Ev.k = 0 THEN SubmitAll ELSE (pc = "gather" /\ UNCHANGED vars)
     /\ subCov' = Append(subCov, Ev.covDig)
-    /\ UNCHANGED <<statDig, mrfDig, costDig, lastBeta>>
+    /\ UNCHANGED <<statDig, mrfDig, costDig, lastBeta, began>>
 
 WorkerExplains(cov, theta) ==
     \E i \in 1..Len(Hdr.workerResults) : Hdr.workerResults[i][1] = cov /\ Hdr.workerResults[i][2] = theta
@@ -176,7 +182,7 @@ TraceOptimize ==
     /\ PhaseCommon(Ev.out)
     /\ mrfDig' = Ev.out.mrf
     /\ UNCHANGED vars
-    /\ UNCHANGED <<statDig, subCov, costDig, lastBeta>>
+    /\ UNCHANGED <<statDig, subCov, costDig, lastBeta, began>>
 
 (* ------------------------------------------------------------------ relabelling *)
 TraceRelabel ==
@@ -196,7 +202,7 @@ TraceRelabel ==
     /\ (Len(Hdr.stackedLens) > 1 =>
           ClauseDev("C07", "switching_cost_zero_on_every_boundary_pair",
                     BoundaryIdx0 \subseteq SetOf(Ev.betaZeroAt),
-                    "F2b_unmasked_beta", Ev.betaAllEqual /\ Ev.betaDig = Hdr.betaDig))
+                    "F2b_unmasked_beta", Ev.betaDig = Hdr.betaDig))      \* exactly the caller's, unmasked
     /\ Clause("C07", "switching_cost_elsewhere_is_the_callers",
               Len(Hdr.stackedLens) = 1 \/ Hdr.betaZero \/ SetOf(Ev.betaZeroAt) \subseteq BoundaryIdx0)
     \* C01 / C09 / C07(c): minimum-cost labelling FOR THE SWITCHING COST ACTUALLY USED (limb arithmetic)
@@ -215,7 +221,7 @@ TraceRelabel ==
     /\ PhaseCommon(Ev.out)
     /\ costDig' = Ev.out.cost
     /\ lastBeta' = [zeroAt |-> Ev.betaZeroAt, allEqual |-> Ev.betaAllEqual]
-    /\ UNCHANGED <<statDig, mrfDig, subCov>>
+    /\ UNCHANGED <<statDig, mrfDig, subCov, began>>
 
 (* ------------------------------------------------------------------ stopping *)
 TraceConverged ==
@@ -258,6 +264,13 @@ SwitchCount(L, lens, within, i, acc) ==
     IF i >= Len(L) THEN acc
     ELSE SwitchCount(L, lens, within, i + 1,
                      acc + (IF L[i] # L[i + 1] /\ (~within \/ i \notin BoundaryPairs(lens)) THEN 1 ELSE 0))
+
+(* the same with a per-pair cost bp (limbs): sum of bp[i] over the counted pairs *)
+RECURSIVE SwitchSum(_, _, _, _, _, _)
+SwitchSum(L, lens, within, bp, i, acc) ==
+    IF i >= Len(L) THEN acc
+    ELSE SwitchSum(L, lens, within, bp, i + 1,
+                   IF L[i] # L[i + 1] /\ (~within \/ i \notin BoundaryPairs(lens)) THEN LAdd(acc, bp[i]) ELSE acc)
 
 LSorted(s) == SortSeq(s, LAMBDA a, b : LLt(a, b))
 LMedian2(s) ==         \* twice the median of a non-empty sequence of limbs
@@ -308,7 +321,7 @@ TraceReturn ==
                  \A k \in 1..K : members[k - 1] = {} \/ Ev.clusterLens[k] = Cardinality(members[k - 1]))
        /\ (Ev.allFinite =>
              LET sumAll == LSum(Ev.allLL)
-                 sw(within) == LScale(Ev.betaL, SwitchCount(labels, Hdr.stackedLens, within, 1, 0))
+                 sw(within) == SwitchSum(labels, Hdr.stackedLens, within, Ev.betaPairsL, 1, LZero)
              IN
              /\ Clause("C06", "overall_sum_is_sum_of_entries", LWithin(Ev.sumLL, sumAll, Ev.slack))
              /\ Clause("C06", "overall_mean_is_mean_of_entries",
@@ -336,6 +349,9 @@ TraceReturn ==
        \* ---- C19 / C20
        /\ Clause("C19", "caller_arrays_unchanged_after_return", Ev.args_same)
        /\ Clause("C20", "no_worker_process_left_behind", Ev.children = 0)
+       \* a task or phase function raised during this call (the harness's wrapper marks it): the call must
+       \* not come back with a result
+       /\ Clause("C20", "a_call_in_which_a_task_or_phase_failed_must_raise_not_return", ~Hdr.faultFired)
     /\ Return /\ KeepT
 
 (* ------------------------------------------------------------------ raise *)
